@@ -26,6 +26,7 @@ type Config struct {
 	CheckOverflow bool
 	ForkMapOrder  bool
 	GoInline      bool
+	GoThreads     bool // go statements start logical threads (run to completion at the statement; schedule query over all of them)
 	AccessLog     bool
 	Workers       int
 	InitPrefixes  []string
@@ -269,6 +270,12 @@ func runPath(prog *ssa.Program, entry *ssa.Function, initFn []*ssa.Function, cfg
 	// schedule queries for this path's thread pairs (C16)
 	for _, prn := range in.parRuns {
 		if desc, race := in.raceQuery(prn); race {
+			_, script, obs := in.modelScript(nil)
+			in.viols = append(in.viols, &Violation{Msg: desc, Decisions: append([]int{}, in.decisions...), Script: script, Kind: "race", Observed: obs})
+		}
+	}
+	if len(in.goThreads) > 1 {
+		if desc, race := in.raceQueryN(in.goThreads); race {
 			_, script, obs := in.modelScript(nil)
 			in.viols = append(in.viols, &Violation{Msg: desc, Decisions: append([]int{}, in.decisions...), Script: script, Kind: "race", Observed: obs})
 		}
